@@ -99,7 +99,25 @@ def make_start(rnd, wd, idx, m128):
         start, ov, regs = progdrv.gen_program(rnd, kind)
         while start < 0x4000:
             start, ov, regs = progdrv.gen_program(rnd, kind)
-    if m128 and rnd.random() < 0.6:
+    hint = None
+    if rnd.random() < 0.1:
+        # a run that crosses a frame boundary, idles into the display period and then uses block transfers, the stack and
+        # direct loads/stores in contended memory: the absolute clock is far beyond one frame by then
+        kind = 'longrun'
+        frame_ = 70908 if m128 else 69888
+        n_it = rnd.randrange(560, 2100)
+        start = 0x8000
+        code = [0xF3, 0x01, n_it & 255, n_it >> 8, 0x0B, 0x78, 0xB1, 0x20, 0xFB,
+                0x21, 0x00, 0x40, 0x11, 0x00, 0x50, 0x01, rnd.randrange(2, 24), 0x00, 0xED, 0xB0,
+                0x31, 0x00, 0x58, 0xF5, 0xC5, 0x32, 0x00, 0x60, 0x3A, 0x10, 0x40,
+                0x21, 0x20, 0x48, 0x11, 0x30, 0x48, 0x01, rnd.randrange(2, 12), 0x00, 0xED, 0xB8,
+                0xED, 0xA0, 0xED, 0xA8, 0xE1, 0xD1, 0x18, 0xFE]
+        ov = [[start + i, b] for i, b in enumerate(code)]
+        pre = 2 + 4 * n_it
+        hint = {'total': pre + 22, 'splits': sorted(set([1, rnd.randrange(2, 12), rnd.randrange(40, pre // 2), rnd.randrange(pre // 2, pre),
+                                                         pre + rnd.randrange(1, 6), pre + rnd.randrange(6, 12), pre + rnd.randrange(12, 20)])),
+                't': frame_ - rnd.randrange(30, 400)}
+    elif m128 and rnd.random() < 0.6:
         kind = 'io128'
         start, ov, regs = gen_io_program(rnd)
     elif rnd.random() < 0.15:
@@ -119,6 +137,8 @@ def make_start(rnd, wd, idx, m128):
            'hl=%d' % (regs[R.H] * 256 + regs[R.L]), 'ix=%d' % (regs[8] * 256 + regs[9]), 'iy=%d' % (regs[10] * 256 + regs[11]),
            'sp=%d' % regs[R.SP], 'i=%d' % regs[R.I], 'r=%d' % regs[R.R], 'pc=%d' % start]
     t = rnd.choice((0, 20, 14335 + 224 * 50 + rnd.randrange(128), frame - 40, frame - 12, frame - 3, frame // 2, rnd.randrange(frame), 2 ** 24 - 300, 2 ** 24 - 40))
+    if hint:
+        t = hint['t']
     state = ['iff=%d' % regs[R.IFF], 'im=%d' % regs[R.IM], 'tstates=%d' % t, 'border=%d' % rnd.randrange(8)]
     if m128:
         banks = [[0] * 0x4000 for _ in range(8)]
@@ -135,7 +155,7 @@ def make_start(rnd, wd, idx, m128):
         machine = '48K'
     path = os.path.join(wd, 'start%d.%s' % (idx, rnd.choice(('z80', 'szx'))))
     write_snapshot(path, ramarg, reg, state, machine)
-    return path, t, kind
+    return path, t, kind, hint
 
 
 def legs(args):
@@ -149,8 +169,10 @@ def legs(args):
     out = []
     for k in range(n):
         m128 = rnd.random() < 0.45
-        start, t0, kind = make_start(rnd, sub, k, m128)
+        start, t0, kind, hint = make_start(rnd, sub, k, m128)
         total = rnd.choice((6, 12, 25, 60))
+        if hint:
+            total = hint['total']
         base = []
         if rnd.random() < 0.5:
             base.append('-c')
@@ -168,6 +190,8 @@ def legs(args):
                         'total': total, 'startfile': startfile})
             continue
         splits = sorted(set(rnd.sample(range(1, total), min(total - 1, 6))))
+        if hint:
+            splits = [x for x in hint['splits'] if 0 < x < total]
         rec = {'key': '%s/%s/%s' % (kind, fmt, '128' if m128 else '48'), 'err': '', 'opts': base, 'fmt': fmt, 't0': t0, 'kind': kind,
                'm128': int(m128), 'total': total, 'start': start, 'startfile': startfile, 'splits': []}
         for n1 in splits:
